@@ -201,3 +201,41 @@ def _load_fragments():
 
 
 _load_fragments()
+
+
+# additions after the third round of seeded changes (appended to the texts above)
+EXTRA = {
+    'C01': ' Binding self-test: corrupted copies of the recorded traces (result replaced by the input, a firing\'s output '
+           'dropped, another trace\'s result) must be rejected by Trace_Reduce in the same batch. The alphabet includes '
+           'indexings that keep the shape without being the identity (a permutation, a repeated negative index).',
+    'C02': ' Every one-call session over integer-parameter operands is replayed once more on int32 data (a fractional '
+           'scalar factor or divisor must stay fractional).',
+    'C03': ' The quick tier replays every product, sum and difference of two operands (all ordered pairs of classes).',
+    'C04': ' A mixed-dtype mode replays the einsum / broadcast-diagonal subjects (alone and after relabelling operators) on '
+           'int32 data with non-integer float32 parameters: as_matrix, the generic as_matrix and linearity must follow the '
+           'dtype promotion.',
+    'C06': ' Tiny diagonal entries (2^-30) must be inverted, not treated as zero.',
+    'C07': ' Clause less_reduced: the real result may not keep more factors than the documented scan leaves. The indexing '
+           'patterns are also replayed on the index expressions of MC_Index (several indexed axes, slices, masks): where '
+           'FxIndex says the rule applies, (P @ P.T).reduce() must be the identity and (P.T @ P).reduce() a diagonal '
+           'operator. Every validation batch carries corrupted copies of recorded traces that Trace_Reduce must reject.',
+    'C10': ' Pytree-valued blocks over list and tuple containers (BRl/BRt, BCl/BCt): refusals decided by the tree structure '
+           'alone are marked by the spec (near) and always replayed; containers of six and seven blocks include '
+           'tuple-valued blocks.',
+    'C12': ' PackOperator is replayed for masks of lower rank than the leaf as well.',
+    'C13': ' The quick tier replays 3000 refusals, among them every refused ravel over two leaves of different shapes.',
+    'C14': ' In the pytree case the ellipsis of a leaf stands for one or two dimensions (leaves of rank >= 3).',
+    'C15': ' Every factory product is always replayed; in 64-bit mode also with float32 data and float64 angles whole '
+           'turns away.',
+    'C16': ' Pointings with colatitudes inside both polar caps are part of the exact family.',
+    'C17': ' Hit sequences are also sampled as (2, L/2) and (1, L) arrays.',
+    'C18': ' Landscapes are declared with the default (float64), float16, float32 and float64 dtypes and round-tripped in '
+           'both 64-bit modes.',
+    'C19': ' The effect of the captured settings is observed, not only their values: every lazy inverse has a twin on an '
+           'operator no solver converges on, which must raise exactly when the CAPTURED solver_throw is set (clause '
+           'throw_used). Corrupted copies of accepted histories must be rejected by Trace_Config (binding self-test).',
+    'C20': ' The helper pytree with three leaves has two leaves of the same shape (any two dtypes).',
+}
+for _pid, _txt in EXTRA.items():
+    if _pid in CHECKS and _txt not in CHECKS[_pid]['text']:
+        CHECKS[_pid]['text'] += _txt
